@@ -323,7 +323,12 @@ PROPS["C11"] = dict(PROPS["C01"], lean=["Gengo.Props.C11"],
                "parameter and result names and variadic flags are equal and whose referenced objects are again registered under common "
                "names - 'registered under the same name' is a bisimulation, the universes are isomorphic on their common part however the "
                "loading was split (split_and_order_irrelevant_v1/v2; hypothesis Consistent: go/types prints nodes of different shape "
-               "differently, checked per case). PARTIAL: receivers are outside the cross-universe statement (a method signature prints "
+               "differently, checked per case). Requested packages are complete (Lemmas/WalkSide.lean, requested_package_is_complete, "
+               "requested_packages_complete_v1): after FindTypes, any sequence of AddDirTo and the scan of one more requested package, every "
+               "named type of its scope is registered with a kind, every function, variable and constant is registered in its index as a "
+               "DeclarationOf object over the object of its Go type (constants with their values) - and stays so through everything "
+               "walked later (declaration objects are never shared between index entries) - and the package's record carries its name "
+               "and direct imports. PARTIAL: receivers are outside the cross-universe statement (a method signature prints "
                "like the plain function type); that the common part contains everything reachable from the packages requested in both "
                "is compared, not proved. v1 Builder: findTypesIn leaves the state untouched for a package that "
                "was not requested, scans exactly the scope of a requested one, fails for a package the type checker does not know; "
